@@ -216,6 +216,7 @@ pub struct Driver {
     ctx: Ctx,
     scratch: std::path::PathBuf,
     pub cross_check: bool,
+    publish_ahead_us: u64,
 }
 
 pub fn t0_us() -> u64 {
@@ -241,6 +242,7 @@ impl Driver {
             ctx: ctx.clone(),
             scratch: scratch.to_path_buf(),
             cross_check: true,
+            publish_ahead_us: scn.spec.publish_ahead_us,
         })
     }
 
@@ -274,7 +276,7 @@ impl Driver {
                     }
                 },
             },
-            Op::Publish => OpResult::Published(self.sender.publish(now).is_ok()),
+            Op::Publish => OpResult::Published(self.sender.publish(now + std::time::Duration::from_micros(self.publish_ahead_us)).is_ok()),
             // (an object whose TOI has meanwhile been given to a later object is gone: its TOI no longer names it)
             Op::Remove(i) => match self.trace.obj_toi.get(*i).copied().flatten().filter(|t| self.toi_owner.get(t) == Some(i)) {
                 Some(toi) => OpResult::Removed(self.sender.remove_object(toi)),
